@@ -79,4 +79,8 @@ def base_family(observer=None):
         markets=[dict(name="M0"), dict(name="M1")],
         events={"halt": {"class": "TradingHaltRule", "targetMarkets": ["M0"], "triggerChangeRate": 0.01, "haltingTimeLength": 1}},
         meta=dict(halt_targets=["M0"]))
+    # the numeric settings int-typed, as a JSON configuration written without decimal points produces them
+    add("P_int_typed_config", [S(0, 2, True, False, maxNormalOrders=2, maxHighFrequencyOrders=1, highFrequencySubmitRate=1),
+                               S(1, 2, True, True, maxNormalOrders=1, maxHighFrequencyOrders=1, highFrequencySubmitRate=1)],
+        agents(2, 1), markets=[dict(name="M0", tick=1, price=100)])
     return sc
